@@ -525,7 +525,61 @@ def chain_part(job, r):
     pool.check_exit(None, r, sess.ex)
 
 
+def block_part(job, r):
+    """KSI_BlockSigner over several blocks with KSI_BlockSigner_reset in between: a leaf handle gives a signature only when ITS block was signed by an
+    authentic, matching reply, and that signature is for the leaf's own hash. Blocks of 1..5 plain leaves (one leaf: the local chain is empty)."""
+    _, exe, env, work, seed, n = job
+    rng = random.Random(seed)
+    key, login, version, alg = b'anon', 'anon', 2, 1
+    srv = Server(rng, key, login.encode(), version, alg)
+
+    def responder(sess, kind, info):
+        if kind == 'http':
+            code, cc, body = srv.reply(info['body'])
+            return 'resp %d %d %s -' % (code, cc, kexec.hx(body))
+        return 'eof'
+    sess = net.Session(exe, env, work, responder)
+    cmd = sess.cmd
+    cmd('ctx 0')
+    cmd('set_aggr 0 ksi+http://aggr.example:8080/gt-signingservice %s %s' % (login, key.decode()))
+    hist = []
+    for i in range(n):
+        b = rng.choice(HONEST[:2]) if rng.random() < 0.55 else rng.choice(['other-hash', 'bad-mac', 'status-nonzero', 'error-pdu', 'wrong-id'])
+        b = b if b in HONEST or b in DEVIATIONS else 'other-hash'
+        srv.behaviour = srv.requested = b
+        srv.expected = None
+        srv.bad_request = None
+        nl = rng.choice([1, 1, 1, 2, 3, 5])
+        q = cmd('bsblock 0 %d %d' % (nl, seed * 1000 + i))
+        b = srv.behaviour
+        hist.append('%d leaves/%s/close=%s' % (nl, b, q.get('close')))
+        replay = 'blocks of one signer so far: ' + ' ; '.join(hist[-8:])
+        if 'close' not in q:
+            r.viol('blocksigner:block-not-built', 'rc=%#x stage=%s' % (q.rc, q.get('stage')), replay)
+            break
+        closed, handed, good = int(q['close']) == 0, int(q['handed']), int(q['good'])
+        r.observe(('block', nl, b, closed, handed, good))
+        if b not in HONEST:
+            if closed:
+                r.viol('blocksigner:%s:success' % b, 'closeAndSign reported success although the server reply was: %s' % b, replay)
+            if handed:
+                r.viol('blocksigner:signature-for-a-block-that-was-not-signed', '%d of %d leaf handles hand out a signature although signing their block failed (%s); %d of them verify for the leaf' % (handed, nl, b, good), replay + ' sig=' + q.get('sig', ''))
+            else:
+                r.count('unsigned_blocks_without_signatures' + ('_after_a_signed_block' if any('close=0' in h for h in hist[:-1]) else ''))
+        else:
+            if not closed:
+                r.viol('blocksigner:honest-reply-rejected', 'closeAndSign rc=%s' % q.get('close'), replay)
+            elif handed != nl or good != nl:
+                r.viol('blocksigner:signed-block:leaf-without-own-signature', '%d leaves, %d signatures handed out, %d verify for their leaf (first refusal rc=%s)' % (nl, handed, good, q.get('refusedrc')), replay + ' sig=' + q.get('sig', ''))
+            else:
+                r.count('signed_blocks_checked')
+    cmd('bsblock 0 0 0 free=1')
+    pool.check_exit(None, r, sess.ex)
+
+
 def dispatch(job, r):
+    if job[0] == 'block':
+        return block_part(job, r)
     if job[0] == 'chain':
         return chain_part(job, r)
     return run_worker(job, r)
@@ -539,10 +593,12 @@ def run(ctx):
                 'reference; success is allowed only for honest behaviours and the returned signature must equal the reference signature; '
                 'distinct = (transport, version, behaviour, outcome, level>0)' % len(DEVIATIONS))
     ctx.assumptions = ['simulated transports harness/ksi_exec_net.c (fake libcurl, wrapped socket calls)', 'reference aggregator vlib/refserver.py + vlib/gen.py']
-    pool.run(ctx, dispatch, [(exe, ctx.env(), ctx.work, ctx.seed * 1000 + i, n) for i in range(32)] + [('chain', exe, ctx.env(), ctx.work, ctx.seed * 1000 + 700 + i, 60 if ctx.tier == 'quick' else 600) for i in range(4)])
+    pool.run(ctx, dispatch, [(exe, ctx.env(), ctx.work, ctx.seed * 1000 + i, n) for i in range(32)] + [('chain', exe, ctx.env(), ctx.work, ctx.seed * 1000 + 700 + i, 60 if ctx.tier == 'quick' else 600) for i in range(4)]
+             + [('block', exe, ctx.env(), ctx.work, ctx.seed * 1000 + 800 + i, 60 if ctx.tier == 'quick' else 600) for i in range(4)])
     c = ctx.counters
     if not ctx.violations and not ctx.known_printed:
         ctx.require(c.get('signatures_checked', 0) >= 100, 'honest signatures returned and checked')
         ctx.require(c.get('signchain_signatures_checked', 0) >= 30 and c.get('signchain_error', 0) >= 30, 'signatures over a caller-side aggregation chain returned and checked')
+        ctx.require(c.get('signed_blocks_checked', 0) >= 40 and c.get('unsigned_blocks_without_signatures_after_a_signed_block', 0) >= 20, 'block signer blocks (signed, and unsigned after a signed one) observed')
         miss = [d for d in DEVIATIONS if not c.get('outcome_%s_error' % d)]
         ctx.require(not miss, 'every deviation exercised: missing %s' % miss)
